@@ -6,7 +6,7 @@
    any environment answers, any unread client bytes, any transfer state. *)
 From Coq Require Import ZArith List Bool.
 From LV Require Import Gen.Consts_C19 Session.FileXferDefs Session.FileXferProofs Session.FileXferHoare
-  Session.FileXferTrace.
+  Session.FileXferTrace Session.FileXferLeak Session.FileXferTight Session.FileXferTightProofs.
 Import ListNotations.
 Local Open Scope Z_scope.
 
@@ -131,3 +131,43 @@ Proof. exact tight_confined_fixed. Qed.
 Theorem C19_tight_confined_prefix_refuted : exists root path t rel,
   tight_target false true true false root path = Some t /\ t = root ++ rel /\ stays_below_root rel = false.
 Proof. exact tight_confined_refuted. Qed.
+
+(* C19_no_descriptor_leak.  For the repaired control flow (the tree: fix commits 4d56b95, b4cfd8a,
+   8230228), at every point of every history of a connection - any sequence of messages of any type,
+   chunk-sender calls, arbitrary callback answers, arbitrary file-system answers, arbitrary client
+   bytes - no descriptor has been lost (the only one that can be open is the one recorded in
+   cl->fileTransfer.fd), no directory stream is open (unless the environment oracle answered with the
+   wrong kind of value: ModelErr), and cl->outputMutex is not held *)
+Theorem C19_no_descriptor_leak : forall cfg w,
+  repaired cfg -> reachable cfg w ->
+  lost_fds (w_st w) = 0 /\ out_locked (w_st w) = false /\ (dir_open (w_st w) = false \/ In ModelErr (w_ev w)).
+Proof. exact no_descriptor_leak. Qed.
+
+(* C19_teardown_never_blocks: hence rfbClientConnectionGone always gets cl->outputMutex, and after it
+   no descriptor of the connection is open *)
+Theorem C19_teardown_never_blocks : forall cfg w,
+  repaired cfg -> reachable cfg w ->
+  fst (connection_gone cfg w) = true /\
+  fd_open (w_st (snd (connection_gone cfg w))) = false /\ lost_fds (w_st (snd (connection_gone cfg w))) = 0.
+Proof. exact teardown_never_blocks. Qed.
+
+(* TightVNC extension, every message type (list, download, upload, upload data, upload done, upload
+   failed, download cancel, create directory), every sequence of them, every name, every outcome of
+   creat/write: nothing at all unless registered, switched on and not view-only ... *)
+Theorem C19_tight_every_entry_gated : forall v reg en vo root st ms,
+  tight_gate reg en vo = false -> tight_run v reg en vo root st ms = [].
+Proof. exact tight_every_entry_gated. Qed.
+
+(* ... C19_tight_every_entry_confined: and every path handed to the file system (stat, opendir, open,
+   creat, utime, unlink, mkdir) is root ++ "/" ++ rel with rel never climbing above the root.  Proved for
+   the control flow with notes/fix_C19_3.diff ([fstale = true]); *)
+Theorem C19_tight_every_entry_confined_fixed : forall reg en vo root ms st,
+  name_ok root st ->
+  Forall (fun o => below_root root (tfs_path o)) (tight_run v_tight_fixed reg en vo root st ms).
+Proof. exact tight_every_entry_confined. Qed.
+
+(* FALSE for the tree (F19b, known finding): the name of a refused upload request stays in
+   rtcp->rcft.rcfu.fName and is unlinked / utimed by a later message *)
+Theorem C19_tight_every_entry_confined_refuted : exists root ms o,
+  In o (tight_run v_tight_tree true true false root tstate0 ms) /\ ~ below_root root (tfs_path o).
+Proof. exact tight_every_entry_confined_refuted. Qed.
